@@ -423,8 +423,22 @@ class FuncTypestate(object):
             return self.call(e, s)
         if k == 'ConditionalOperator':
             self.eval(e.kids[0], s)
-            a = self.eval(e.kids[1], s)
-            b = self.eval(e.kids[2], s)
+            # only one arm is evaluated: run each arm on a copy and merge fresh acquisitions into ONE resource
+            sa, sb = s.copy(), s.copy()
+            a = self.eval(e.kids[1], sa)
+            b = self.eval(e.kids[2], sb)
+            fresh = [(r, st) for st_ in (sa, sb) for r, st in st_.r.items() if r not in s.r]
+            if fresh:
+                rid = 'r%d' % e.uid
+                kind = fresh[0][1][1]
+                s.r[rid] = (LIVE, kind)
+                first = None
+                for st_ in (sa, sb):
+                    for r in st_.r:
+                        if r not in s.r and r in self.acquired and first is None:
+                            first = self.acquired[r]
+                self.acquired.setdefault(rid, first or (e, kind, pp(e)[:60]))
+                return ('rid', rid)
             return a if a and a[0] == 'rid' else b
         if k == 'BinaryOperator' and e.op == ',':
             self.eval(e.kids[0], s)
@@ -776,12 +790,28 @@ def _site_sig(call):
 
 # ====================================================================== E5 cache typestate (C14)
 
-def _stores(f):
-    """[(cnode-less) (lhs text, rhs node, assignment node)] for all plain assignments in f"""
+def _npp(e, fs, depth=0):
+    """pp with single-definition pointer locals replaced by their defining expression (alias-neutral matching)"""
+    e = strip(e, casts=True)
+    if e is None:
+        return ''
+    if e.kind == 'DeclRefExpr' and e.refkind == 'VarDecl' and depth < 4 and type_is_pointer(e.type):
+        d = fs.single_def(e.refid)
+        if d is not None and strip(d, casts=True).kind in ('MemberExpr', 'DeclRefExpr', 'UnaryOperator'):
+            return _npp(d, fs, depth + 1)
+    if e.kind == 'MemberExpr':
+        return _npp(e.kids[0], fs, depth) + ('->' if e.arrow else '.') + (e.name or '?')
+    if e.kind == 'UnaryOperator' and e.op == '&':
+        return '&' + _npp(e.kids[0], fs, depth)
+    return pp(e)
+
+
+def _stores(f, fs=None):
+    """[(lhs text, rhs node, assignment node)] for all plain assignments in f"""
     out = []
     for n in f.body.walk():
         if n.kind == 'BinaryOperator' and n.op == '=':
-            out.append((pp(strip(n.kids[0], casts=True)), n.kids[1], n))
+            out.append(((_npp(n.kids[0], fs) if fs is not None else pp(strip(n.kids[0], casts=True))), n.kids[1], n))
     return out
 
 
@@ -887,8 +917,35 @@ def rule_E5(ctx, prog, label, rule='E5'):
                     if c2 is not None and c2.id in dom.get(cn.id, ()):
                         freed = True
             if not (under_free or freed):
-                ok = False
-                why = '`%s` overwrites a slot that may hold a block without releasing it first' % pp(n)
+                # restructured form: the slot index is a variable; every definition of it must be justified
+                idxs = [x for x in strip(n.kids[0], casts=True).walk() if x.kind == 'ArraySubscriptExpr']
+                just = False
+                if idxs:
+                    iv_ = strip(idxs[0].kids[1], casts=True)
+                    if iv_.kind == 'DeclRefExpr' and iv_.refkind == 'VarDecl' and len(fs.defs.get(iv_.refid, [])) > 1:
+                        just = True
+                        for d_ in fs.defs[iv_.refid]:
+                            dv = int_value(d_)
+                            if dv is not None and dv < 0:
+                                continue          # sentinel
+                            # under `mm[d].size == 0`
+                            asg = fs.parent.get(d_.uid)
+                            okd = False
+                            for ifs in fs.enclosing_all(d_, ('IfStmt',)):
+                                c_ = strip(ifs.kids[0], casts=True)
+                                if c_.kind == 'BinaryOperator' and c_.op == '==' and pp(strip(c_.kids[0], casts=True)).endswith('.size') and int_value(c_.kids[1]) == 0:
+                                    okd = True
+                            # followed in the same block by m4ri_mm_free(mm[v].data)
+                            blk = fs.enclosing(d_, ('CompoundStmt',))
+                            if blk is not None:
+                                for c in blk.find('CallExpr'):
+                                    if callee_name(c) == 'm4ri_mm_free' and pp(strip(c.kids[1], casts=True)) == slot + '.data':
+                                        okd = True
+                            if not okd:
+                                just = False
+                if not just:
+                    ok = False
+                    why = '`%s` overwrites a slot that may hold a block without releasing it first' % pp(n)
         ob(ok, 'evicted-block-released', 'a slot is overwritten only when empty or after its old block went to m4ri_mm_free', f, why)
         # every path stores or frees the condemned block
         sinks = set()
@@ -908,6 +965,24 @@ def rule_E5(ctx, prog, label, rule='E5'):
                 stk.append(m)
         ob(g.exit.id not in seen, 'condemned-block-kept-or-freed', 'every path of m4ri_mmc_free stores the block in a slot or releases it', f,
            'a path reaches the end of m4ri_mmc_free with the block neither cached nor freed (leak)')
+        # ... and never both: once released, the pointer must not be cached
+        rel_nodes = [_cnode_of(g, c) for c in f.body.find('CallExpr') if callee_name(c) == 'm4ri_mm_free' and pp(strip(c.kids[1], casts=True)) == p0]
+        keep_ids = set(_cnode_of(g, n).id for (l, r, n) in keep)
+        both = False
+        for rn in rel_nodes:
+            seen2 = set()
+            stk = [m for (_l, m) in rn.succs]
+            while stk:
+                n_ = stk.pop()
+                if n_.id in seen2:
+                    continue
+                seen2.add(n_.id)
+                if n_.id in keep_ids:
+                    both = True
+                for (_l, m) in n_.succs:
+                    stk.append(m)
+        ob(not both, 'released-block-not-cached', 'a block handed to m4ri_mm_free is never stored in a slot afterwards', f,
+           'a path releases `%s` and then stores it into the cache: the slot holds a dangling pointer that is freed again later' % p0)
         # ---- 3. cleanup
         f = prog.func('m4ri_mmc_cleanup')
         loops = f.body.find('ForStmt')
@@ -934,14 +1009,16 @@ def rule_E5(ctx, prog, label, rule='E5'):
         f = prog.func('mzd_t_free')
         g = cfg_of(f)
         dom = g.dominators()
+        from .symbolic import FuncSym as _FS
+        fsu = _FS(f)
         frees = [c for c in f.body.find('CallExpr') if callee_name(c) == 'm4ri_mm_free' and pp(strip(c.kids[1], casts=True)) == 'cache']
-        st_ = _stores(f)
+        st_ = _stores(f, fsu)
         ok = bool(frees)
         why = 'an emptied secondary header block is never released' if not frees else ''
         for c in frees:
             cn = _cnode_of(g, c)
-            relink_next = [n for (l, r, n) in st_ if l == 'cache->prev->next' and pp(strip(r, casts=True)) == 'cache->next']
-            relink_prev = [n for (l, r, n) in st_ if l == 'cache->next->prev' and pp(strip(r, casts=True)) == 'cache->prev']
+            relink_next = [n for (l, r, n) in st_ if l == 'cache->prev->next' and _npp(r, fsu) == 'cache->next']
+            relink_prev = [n for (l, r, n) in st_ if l == 'cache->next->prev' and _npp(r, fsu) == 'cache->prev']
             if not relink_next or _cnode_of(g, relink_next[0]).id not in dom.get(cn.id, ()):
                 ok, why = False, 'the block is freed without `cache->prev->next = cache->next`'
             if not relink_prev:
